@@ -16,6 +16,14 @@ NOTES = ("Every check = TLA+ specification under spec/ checked by TLC + conforma
          "known_findings.json lists genuine defects (known / fixed).")
 NOT_APPLICABLE = {}
 CHECKS = {
+    "C08": {
+        "level": "model_checking",
+        "technique": "TLA+ spec Declarations.tla (var() substitution stack machine vs declarative value; block, shorthand and spelling tables) model-checked by TLC; every scenario replayed through validation.PreprocessDeclarations / computed styles",
+        "text": "TLC proves termination and correctness of the substitution machine on all graphs of three custom properties (cycles included) and "
+                "enumerates blocks with invalid members, shorthand forms and spelling variants with the meaning CSS assigns; the real code must "
+                "compute the same value for the probe element in every scenario.",
+        "note": "Literal fallbacks only; a handful of probe properties; font/background/grid/border-image/border-radius shorthands have no expansion oracle.",
+    },
     "C04": {
         "level": "model_checking",
         "technique": "TLA+ spec Defaulting.tla (CSS defaulting vs lazy Get with cache, all access orders) model-checked by TLC; every kind assignment replayed on every supported property through tree.GetAllComputedStyles",
